@@ -16,7 +16,7 @@ INFO = {
             "(a stack of frames: S pushes, '_' pops one, _root is the outermost pushed frame, _params the keyword frame at every depth, "
             "_index the innermost repeater's index as seen from the frame, exactly one flag true); bytes built for a value must parse "
             "back to it. non-trivial = library and reference both accept and value/bytes were compared; distinct = (shape, op, input, kw)",
-    "bounds": {"quick": {"depth": 2, "depth3_alphabet": ["Struct", "SequenceD", "Array", "ArrayD", "Prefixed", "LazyStruct", "FocusedSeq"]},
+    "bounds": {"quick": {"depth": 2, "depth3_alphabet": ["Struct", "SequenceD", "StructF", "Array", "ArrayD", "Prefixed", "LazyStruct"]},
                "thorough": {"depth": 3, "depth3_alphabet": None}},
     "trusted_base": ["mc/ref.py context model (push/top_ctx, 25 lines) and expression evaluator"],
     "assumptions": ["LazyStruct members refer only to _, _root, _params (documented restriction: no sibling cross references)",
@@ -26,7 +26,9 @@ INFO = {
 
 # StructD / SequenceD: the sibling is a derived member (Rebuild of a keyword argument), so what the context holds after building
 # it is the value build computed, not the one supplied
-S_KINDS = ["Struct", "Sequence", "FocusedSeq", "Union", "LazyStruct", "StructD", "SequenceD"]
+# StructF: the sibling is derived from a LATER member whose name starts with an underscore (forward reference at build time: the
+# supplied value must already be visible; private-looking names are ordinary member names)
+S_KINDS = ["Struct", "Sequence", "FocusedSeq", "Union", "LazyStruct", "StructD", "SequenceD", "StructF"]
 DERIVED = ["Rebuild", BYTE, ["bin", "+", ["path", ["_params", "k"]], ["k", 1]]]
 R_KINDS = ["Array", "GreedyRange", "RepeatUntil", "ArrayD", "GreedyRangeD"]      # ..D: built with discard=True
 W_KINDS = ["Prefixed", "FixedSized", "Padded", "IfThenElse", "Switch", "Renamed"]
@@ -41,6 +43,9 @@ def wrap(kind, inner, level):
         return ["Sequence", [[x, BYTE], ["in", inner]]]
     if kind == "StructD":
         return ["Struct", [[x, DERIVED], ["in", inner]]]
+    if kind == "StructF":
+        w = "_w%d" % level
+        return ["Struct", [[x, ["Rebuild", BYTE, ["fn", "len_", ["this", w]]]], [w, ["Bytes", 1]], ["in", inner]]]
     if kind == "SequenceD":
         return ["Sequence", [[x, DERIVED], ["in", inner]]]
     if kind == "FocusedSeq":
@@ -72,6 +77,16 @@ def wrap(kind, inner, level):
     if kind == "Renamed":
         return ["Renamed", inner, "rn"]
     raise ValueError(kind)
+
+
+def strip_private(v):
+    """norm() of a parsed value leaves out members whose name starts with an underscore (they are not shown / compared by
+    Container either); the reference keeps them, so they are dropped on that side before comparing"""
+    if isinstance(v, dict):
+        return {k: strip_private(x) for k, x in v.items() if not (isinstance(k, str) and k.startswith("_"))}
+    if isinstance(v, list):
+        return [strip_private(x) for x in v]
+    return v
 
 
 def undiscard(t):
@@ -214,7 +229,7 @@ def check_shape(t, d, chain, r=None, only=None, path=None):
             if r is not None:
                 r.states += 1
             if want[0] == "ok" and got[0] == "ok":
-                if not T.eqv(want[1], got[1]) or want[2] != got[2]:
+                if not T.eqv(strip_private(want[1]), got[1]) or want[2] != got[2]:
                     bad("parse-differs", case, "%s.parse(%s, %s): %r ending at %d; scope model: %r ending at %d" % (show, x[:12].hex(), kw, got[1], got[2], want[1], want[2]))
                     if r is not None:
                         r.case(nontrivial=True, outcome="parse-bad", validated=1)
@@ -241,7 +256,7 @@ def check_shape(t, d, chain, r=None, only=None, path=None):
                         back = rt.parse(d, gb[1], kw)
                         # what the bytes mean according to the scope model (equals the value unless a derived member was recomputed)
                         wback = outcome_ref(lambda: R.parse(t, wb[1], **kw))
-                        if wback[0] == "ok" and (back[0] != "ok" or not T.eqv(back[1], wback[1])):
+                        if wback[0] == "ok" and (back[0] != "ok" or not T.eqv(back[1], strip_private(wback[1]))):
                             bad("build-selects-other-layout", caseb, "%s: build(%r, %s) = %s parses back to %r" % (show, v, kw, gb[1].hex(), back[1:2]))
                     if r is not None:
                         r.case(nontrivial=True, outcome="build-ok", validated=1)
